@@ -422,3 +422,127 @@ def checks(tier):
                       "upload-pack handler over an in-memory pkt-line stream", outside="deepen-since / deepen-not; protocol v2; "
                       "network transports", tiers=q),
     ]
+
+
+# ---------------------------------------------------------------------------------------------
+# (f) the wire client's request writer: a shallow receiver always declares its boundary
+_c05_f = checks
+
+
+def h_client_request(eng):
+    """_handle_upload_pack_head writes the fetch request of the wire clients.  Receiver: a repository holding a symbolic
+    part of the history c0<-c1<-c2 (main), c1<-c3 (side) with its boundary in .git/shallow; depth none / 1 / 2; protocol
+    v0 and v2: every commit announced as 'have' whose parents the receiver lacks is declared with a 'shallow' line, the
+    lines come in protocol order, and feeding the very request to the real upload-pack handler leaves the receiver with
+    every object of what it asked for (up to the boundaries in force afterwards)"""
+    from dulwich.client import _handle_upload_pack_head
+    from dulwich.protocol import PktLineParser
+    from dulwich.object_store import MemoryObjectStore as _M
+    d, d2 = scratch("c05f"), scratch("c05g")
+    server = Repo.init_bare(d)
+    client = Repo.init_bare(d2)
+    try:
+        cs, per = [], []
+        for i, parents in enumerate(([], [0], [1], [1])):
+            b = Blob.from_string(b"blob of c%d\n" % i)
+            t = Tree()
+            t.add(b"f%d" % i, 0o100644, b.id)
+            c = Commit()
+            c.tree = t.id
+            c.parents = [cs[p].id for p in parents]
+            c.author = c.committer = b"V <v@v>"
+            c.author_time = c.commit_time = 1000 + i
+            c.author_timezone = c.commit_timezone = 0
+            c.message = b"c%d" % i
+            for o in (b, t, c):
+                server.object_store.add_object(o)
+            cs.append(c)
+            per.append({b.id, t.id, c.id})
+        server.refs[b"refs/heads/main"] = cs[2].id
+        server.refs[b"refs/heads/side"] = cs[3].id
+        d1 = 1 + eng.choice("client_depth_of_main_minus_1", 3)
+        held = [2, 1, 0][:d1]
+        for i in held:
+            for o_ in per[i]:
+                client.object_store.add_object(server.object_store[o_])
+        client.refs[b"refs/heads/main"] = cs[2].id
+        boundary = [cs[held[-1]].id] if d1 < 3 else []
+        if boundary:
+            client.update_shallow(boundary, [])
+        depth = [None, 1, 2][eng.choice("depth", 3)]
+        version = [0, 2][eng.choice("protocol_version_is_2", 2)]
+        out = []
+        proto = Protocol(lambda n=None: b"", out.append)
+        walker = client.get_graph_walker()
+        caps = [b"ofs-delta", b"side-band-64k", b"thin-pack", b"shallow", b"multi_ack_detailed"] if version != 2 else [b"fetch=shallow"]
+        tag = f"[receiver holds main at depth {d1} (shallow {[x[:6] for x in boundary]}); fetch side, depth {depth}, protocol v{version}]"
+        _handle_upload_pack_head(proto, caps, walker, [cs[3].id], None, depth, version)
+        frames = []
+        PktLineParser(frames.append).parse(b"".join(out))
+        lines = [f.rstrip(b"\n") for f in frames if f]
+        haves = [l[5:] for l in lines if l.startswith(b"have ")]
+        shallows = [l[8:] for l in lines if l.startswith(b"shallow ")]
+        for h_ in haves:
+            eng.prove(h_ in client.object_store, f"{tag} announced have {h_[:6]!r} is held")
+        for b_ in boundary:
+            if b_ in haves or depth is not None:
+                eng.prove(b_ in shallows, f"{tag} the receiver's boundary {b_[:6]!r} is declared with a 'shallow' line "
+                                          f"(request: {[l[:14] for l in lines]})")
+        kinds = [l.split(b" ")[0] for l in lines]
+        order = {b"want": 0, b"shallow": 1, b"deepen": 2, b"have": 3, b"done": 4}
+        ranks = [order.get(k, 9) for k in kinds]
+        eng.prove(ranks == sorted(ranks) and kinds[-1] == b"done", f"{tag} request lines in protocol order: {kinds}")
+        if version != 2:
+            # the same bytes, served by the real upload-pack handler (stateless): what the receiver ends up with
+            inf = BytesIO(b"".join(out))
+            sout = []
+            sp = Protocol(inf.read, sout.append)
+            h = UploadPackHandler(DictBackend({b"/": server}), [b"/"], sp, stateless_rpc=True)
+            try:
+                h.handle()
+            except (GitProtocolError, HangupException) as e:
+                eng.fail(f"{tag} the server refuses the request dulwich's client wrote: {e}")
+                return
+            fr = []
+            try:
+                PktLineParser(fr.append).parse(b"".join(sout))
+            except GitProtocolError:
+                pass
+            data = b"".join(f[1:] for f in fr if f and f[:1] == b"\x01")
+            i = data.find(b"PACK")
+            have_objs = set(client.object_store)
+            if i >= 0:
+                rx = _M()
+                for o_ in have_objs:
+                    rx.add_object(client.object_store[o_])
+                rx.add_thin_pack(BytesIO(data[i:]).read, None)
+                have_objs = set(rx)
+            new_shallow = {f[8:48] for f in fr if f and f.startswith(b"shallow ")}
+            stops = set(boundary) | new_shallow
+            # everything reachable from side, not descending below a commit that is (now) a boundary
+            need, todo = set(), [3]
+            while todo:
+                k = todo.pop()
+                need |= per[k]
+                if cs[k].id not in stops:
+                    todo += [cs.index(x) for x in cs if x.id in cs[k].parents]
+            missing = need - have_objs
+            eng.prove(not missing, f"{tag} after the fetch the receiver lacks {sorted(x[:6] for x in missing)} although no boundary "
+                                   f"covers them (boundaries {[x[:6] for x in stops]})")
+    finally:
+        server.close()
+        client.close()
+        shutil.rmtree(d, ignore_errors=True)
+        shutil.rmtree(d2, ignore_errors=True)
+
+
+def checks(tier):
+    q = ("quick", "thorough")
+    return _c05_f(tier) + [
+        KCheck("C05f.client_request", h_client_request,
+               encoded=["dulwich.client._handle_upload_pack_head", "dulwich.object_store.ObjectStoreGraphWalker", "dulwich.server.UploadPackHandler.handle"],
+               bounds="receiver holding main at depth 1, 2 or completely (boundary in .git/shallow); fetch of side with depth none, 1 "
+                      "or 2; protocol v0 and v2 request syntax; for v0 the request bytes are served by the real upload-pack handler "
+                      "in-process and the receiver's completeness is checked against the boundaries in force",
+               outside="sockets, subprocess and HTTP transports themselves; C git as the peer; deepen-since / deepen-not", tiers=q),
+    ]
